@@ -5,12 +5,13 @@ demo fails with the patch; demo passes without it. Then runs the checks of /veri
 import json, os, re, shutil, subprocess, sys, glob, tempfile, concurrent.futures
 
 SNAP = "2b0dff6"
-ROUND2 = "--round2" in sys.argv   # second round: agents worked on worktrees of the repaired tree (R2BASE), output in /tmp/seedout2
-R2BASE = "54253df"
-SRC = "/tmp/seedout2" if ROUND2 else "/tmp/seedout"
-BASE = R2BASE if ROUND2 else SNAP
+ROUND = 3 if "--round3" in sys.argv else 2 if "--round2" in sys.argv else 1
+ROUND2 = ROUND > 1   # later rounds: agents worked on worktrees of the repaired tree; output in /tmp/seedout<N>; demos run with -race
+BASES = {1: SNAP, 2: "54253df", 3: "b97d7ea"}
+SRC = "/tmp/seedout" if ROUND == 1 else f"/tmp/seedout{ROUND}"
+BASE = BASES[ROUND]
 def sid(prop, k):
-    return f"{prop}-r2-{k}" if ROUND2 else f"{prop}-{k}"
+    return f"{prop}-{k}" if ROUND == 1 else f"{prop}-r{ROUND}-{k}"
 ENV = dict(os.environ, GOFLAGS="-mod=mod", GOPROXY="off", CGO_ENABLED="1")
 ENV.pop("GOWORK", None)
 RELATED = {  # properties whose checks are run against a seed of the given property
@@ -32,7 +33,7 @@ def confirm(prop, k):
     meta = json.load(open(f"{src}/meta.json")) if os.path.exists(f"{src}/meta.json") else {}
     wt = tempfile.mkdtemp(prefix="seedconf-", dir="/tmp")
     os.rmdir(wt)
-    res = {"property": prop, "seed": sid(prop, k), "round": 2 if ROUND2 else 1, "base_commit": BASE, "agent_summary": meta.get("summary", ""), "needs_to_manifest": meta.get("needs_to_manifest", ""),
+    res = {"property": prop, "seed": sid(prop, k), "round": ROUND, "base_commit": BASE, "agent_summary": meta.get("summary", ""), "needs_to_manifest": meta.get("needs_to_manifest", ""),
            "files_touched": meta.get("files_touched", []), "confirmed": {}, "ran": []}
     try:
         rc, out = sh(f"git -C /repo worktree add -q --detach {wt} {BASE}", "/")
@@ -102,8 +103,8 @@ def main():
         parts = d.split("/")
         seeds.append((parts[3], parts[4]))
     for d in sorted(glob.glob("/verif/seeded/C*")):
-        m = re.match(r"^(C\d\d)-(r2-)?(\d+)$", os.path.basename(d))
-        if not m or bool(m.group(2)) != ROUND2: continue
+        m = re.match(r"^(C\d\d)-(?:r(\d)-)?(\d+)$", os.path.basename(d))
+        if not m or int(m.group(2) or 1) != ROUND: continue
         prop, k = m.group(1), m.group(3)
         if (prop, k) not in seeds:
             seeds.append((prop, k))
